@@ -819,6 +819,12 @@ Proof.
       nia.
   - rewrite ray2d_core_outside by exact Hh. discriminate.
 Qed.
+
+Theorem ray2d_honor_terminates fuel :
+  hg = true ->
+  ((Z.to_nat max_step + 1) * (Z.to_nat (nfree_max2 z x stepsize) + 2) + 1 <= fuel)%nat ->
+  core fuel <> OutOfFuel.
+Proof. intros _. apply ray2d_terminates. Qed.
 End Thm.
 
 (* ------------------------------------------------------------------------------------------ *)
@@ -1222,6 +1228,7 @@ Print Assumptions ray2d_raises_value_error_iff.
 Print Assumptions ray2d_nan_end_point_raises.
 Print Assumptions ray2d_free_terminates.
 Print Assumptions ray2d_terminates.
+Print Assumptions ray2d_honor_terminates.
 Print Assumptions ray2d_core_count_range.
 Print Assumptions ray2d_core_endpoints.
 Print Assumptions ray2d_1_endpoints.
